@@ -647,8 +647,11 @@ namespace xsimd
         {
             using real_batch = batch<T_out, A>;
             T_in const* buffer = reinterpret_cast<T_in const*>(mem);
+            // the second half lies real_batch::size elements of the memory type further on, which is a multiple of the
+            // alignment only when that type is not narrower than the batch's
             real_batch hi = real_batch::load_aligned(buffer),
-                       lo = real_batch::load_aligned(buffer + real_batch::size);
+                       lo = sizeof(T_in) >= sizeof(T_out) ? real_batch::load_aligned(buffer + real_batch::size)
+                                                          : real_batch::load_unaligned(buffer + real_batch::size);
             return detail::load_complex(hi, lo, A {});
         }
 
@@ -672,7 +675,12 @@ namespace xsimd
             real_batch lo = detail::complex_low(src, A {});
             T_out* buffer = reinterpret_cast<T_out*>(dst);
             lo.store_aligned(buffer);
-            hi.store_aligned(buffer + real_batch::size);
+            // the second half lies real_batch::size elements of the memory type further on, which is a multiple of the
+            // alignment only when that type is not narrower than the batch's
+            if (sizeof(T_out) >= sizeof(T_in))
+                hi.store_aligned(buffer + real_batch::size);
+            else
+                hi.store_unaligned(buffer + real_batch::size);
         }
 
         // store_complex_unaligned
